@@ -1170,6 +1170,18 @@ func runLinRealms(c *Ctx, fl linFlavour, nRealms int) {
 		n += k
 	}
 	c.Res.NOps = n
+	var mirrorID, mirrorSub wamp.ID
+	// an observer of every meta event in the first realm: what was announced must be what the
+	// meta API shows once the run is quiescent, in the right order per object (p_mirror.go)
+	var mirror *metaMirror
+	if !tmpl {
+		mirror = StartMirror(c, w, wamp.URI(realms[0]))
+		if mirror.obs != nil {
+			lws[0].allSess = append(lws[0].allSess, mirror.obs.ID)
+			mirrorID, mirrorSub = mirror.obs.ID, mirror.ownSub
+			lws[0].allSubs = append(lws[0].allSubs, mirror.ownSub)
+		}
+	}
 	// bootstrap: one observer session per realm that stays (not with a template realm: there
 	// the clients' first joins are the ones that create the realm)
 	bootIDs := make([]wamp.ID, len(lws))
@@ -1236,7 +1248,7 @@ func runLinRealms(c *Ctx, fl linFlavour, nRealms int) {
 	for _, lw := range lws {
 		pubIDs := map[string]wamp.ID{}
 		for _, s := range w.Sess {
-			if string(s.Realm) != lw.realm {
+			if string(s.Realm) != lw.realm || (mirror != nil && s == mirror.obs) {
 				continue
 			}
 			for _, r := range s.Inbox {
@@ -1289,6 +1301,9 @@ func runLinRealms(c *Ctx, fl linFlavour, nRealms int) {
 			sort.Strings(o.Set)
 		}
 	}
+	if mirror != nil {
+		mirror.Check(c, w)
+	}
 	if len(c.Res.Violations) == 0 {
 		type job struct {
 			ops   []*linOp
@@ -1300,8 +1315,12 @@ func runLinRealms(c *Ctx, fl linFlavour, nRealms int) {
 			jobs = append(jobs, job{lw.ops, bootIDs[i], lw.realm})
 		}
 		c.Res.post = func(res *Result) {
-			for _, j := range jobs {
-				linCheck(res, j.ops, j.boot, strict, j.realm)
+			for i, j := range jobs {
+				var extra *linSub
+				if i == 0 && mirrorID != 0 {
+					extra = &linSub{ID: mirrorSub, Topic: "wamp.", Match: "prefix", Subs: []wamp.ID{mirrorID}}
+				}
+				linCheck(res, j.ops, j.boot, extra, strict, j.realm)
 			}
 		}
 	}
@@ -1311,7 +1330,7 @@ func runLinRealms(c *Ctx, fl linFlavour, nRealms int) {
 var linPartName = map[byte]string{'S': "session table", 'B': "broker (subscriptions, publications)", 'D': "dealer (registrations, calls)"}
 
 // linCheck runs outside the bubble (plain goroutines, real time).
-func linCheck(res *Result, ops []*linOp, boot wamp.ID, strict bool, realm string) {
+func linCheck(res *Result, ops []*linOp, boot wamp.ID, extra *linSub, strict bool, realm string) {
 	for _, part := range []byte{'S', 'B', 'D'} {
 		var hist []porcupine.Operation
 		var mine []*linOp
@@ -1331,10 +1350,16 @@ func linCheck(res *Result, ops []*linOp, boot wamp.ID, strict bool, realm string
 		}
 		model := porcupine.Model{
 			Init: func() interface{} {
-				if boot == 0 {
-					return &linState{}
+				st := &linState{}
+				if boot != 0 {
+					st.Sess = addSorted(st.Sess, boot)
 				}
-				return &linState{Sess: []wamp.ID{boot}}
+				if extra != nil {
+					// the meta-event observer: attached, and holding its subscription to "wamp."
+					st.Sess = addSorted(st.Sess, extra.Subs[0])
+					st.Subs = append(st.Subs, linSub{ID: extra.ID, Topic: extra.Topic, Match: extra.Match, Subs: append([]wamp.ID(nil), extra.Subs...)})
+				}
+				return st
 			},
 			Step:  linStep(strict),
 			Equal: func(a, b interface{}) bool { return a.(*linState).Key() == b.(*linState).Key() },
